@@ -125,7 +125,14 @@ func (s *Scenario) maxScriptMS() int64 {
 	for _, st := range s.Script.Steps {
 		t += st.RunMS + st.DeployMS + st.CancelMS
 	}
-	return t
+	// the steps of a loop's sub-workflow act once per item (at worst one item after the other)
+	items := int64(1)
+	for i := range s.Prog.Steps {
+		if l, ok := s.Prog.Steps[i].Items.(List); ok && int64(len(l.Items)) > items {
+			items = int64(len(l.Items))
+		}
+	}
+	return t * items
 }
 
 // ---------------------------------------------------------------------------------------
